@@ -12,6 +12,7 @@ use axum::http::StatusCode;
 use axum::routing::{delete, get, post, put};
 use axum::{Extension, Json, Router};
 use error_set::ErrContext;
+use iggy::error::IggyError;
 use iggy::identifier::Identifier;
 use iggy::models::identity_info::IdentityInfo;
 use iggy::models::user_info::{UserInfo, UserInfoDetails};
@@ -351,6 +352,17 @@ async fn refresh_token(
         .with_error_context(|error| {
             format!("{COMPONENT} (error: {error}) - failed to refresh token")
         })?;
+    // The user the token was issued to may have been deleted in the meantime: a deleted user gets no fresh token.
+    let system = state.system.read().await;
+    system
+        .get_user(&Identifier::numeric(token.user_id)?)
+        .with_error_context(|error| {
+            format!(
+                "{COMPONENT} (error: {error}) - failed to refresh token, user ID: {} no longer exists",
+                token.user_id
+            )
+        })
+        .map_err(|_| IggyError::Unauthenticated)?;
     Ok(Json(map_generated_access_token_to_identity_info(token)))
 }
 
